@@ -46,7 +46,7 @@ pub fn prop() -> Prop {
         stub: &["transport", "store", "glue", "random source", "byte-corrupting network/storage"],
         independent: &["hostile dictionary from the Python reference (ref/hostile/*.json)"],
         ref_sample: |_| 0,
-        required_probes: &["commitment_encodings_round_trip", "one_entry_commitment_round_trip", "structured_scalars_accepted", "type_Identifier", "type_SigningShare", "type_VerifyingShare", "type_VerifyingKey", "type_SigningKey", "type_Nonce", "type_NonceCommitment", "type_CoefficientCommitment", "type_Signature", "type_SignatureShare", "type_Delta", "type_Sigma", "type_Randomizer", "composite_SecretShare", "composite_KeyPackage", "composite_PublicKeyPackage", "composite_PublicKeyPackage_pre3", "composite_SigningNonces", "composite_SigningCommitments", "composite_SigningPackage", "composite_dkg_round1_Package", "composite_dkg_round1_SecretPackage", "composite_dkg_round2_Package", "composite_dkg_round2_SecretPackage", "version_fault", "ciphersuite_fault_bin", "ciphersuite_fault_json", "cross_suite_payload", "hostile_elements", "hostile_scalars", "zero_identifier_rejected", "zero_signing_key_rejected", "identity_rejected"],
+        required_probes: &["boundary_x_coordinates_accepted", "commitment_encodings_round_trip", "one_entry_commitment_round_trip", "structured_scalars_accepted", "type_Identifier", "type_SigningShare", "type_VerifyingShare", "type_VerifyingKey", "type_SigningKey", "type_Nonce", "type_NonceCommitment", "type_CoefficientCommitment", "type_Signature", "type_SignatureShare", "type_Delta", "type_Sigma", "type_Randomizer", "composite_SecretShare", "composite_KeyPackage", "composite_PublicKeyPackage", "composite_PublicKeyPackage_pre3", "composite_SigningNonces", "composite_SigningCommitments", "composite_SigningPackage", "composite_dkg_round1_Package", "composite_dkg_round1_SecretPackage", "composite_dkg_round2_Package", "composite_dkg_round2_SecretPackage", "version_fault", "ciphersuite_fault_bin", "ciphersuite_fault_json", "cross_suite_payload", "hostile_elements", "hostile_scalars", "zero_identifier_rejected", "zero_signing_key_rejected", "identity_rejected"],
         prepare: None,
     }
 }
@@ -632,6 +632,61 @@ fn exec_c<C: Suite>(scen: &Scenario) -> Exec {
                     rep.evaluations += decodes;
                     return Exec::Violation(v, rep);
                 }
+            }
+        }
+        // secp256k1 family: valid points whose x coordinate lies at the top of the coordinate range - at or above the GROUP ORDER n
+        // and just below the FIELD prime p (a coordinate is a field element; n < p). Random points never have such an x.
+        if C::NAME == "secp256k1" || C::NAME == "secp256k1-tr" {
+            let pm: [u8; 32] = hex::decode_to_array("fffffffffffffffffffffffffffffffffffffffffffffffffffffffefffffc2f").unwrap();
+            let nm: [u8; 32] = hex::decode_to_array("fffffffffffffffffffffffffffffffebaaedce6af48a03bbfd25e8cd0364141").unwrap();
+            // big-endian byte string plus a small signed integer
+            let add = |b: &[u8; 32], k: i32| -> [u8; 32] {
+                let mut out = *b;
+                let mut carry = k;
+                for i in (0..32).rev() {
+                    let v = out[i] as i32 + carry;
+                    out[i] = v.rem_euclid(256) as u8;
+                    carry = v.div_euclid(256);
+                }
+                out
+            };
+            let mut xs: Vec<([u8; 32], String)> = Vec::new();
+            for k in 1..48 {
+                xs.push((add(&pm, -k), format!("x = p - {k}")));
+            }
+            for k in 0..48 {
+                xs.push((add(&nm, k), format!("x = n + {k}")));
+            }
+            let mut used = 0;
+            for (x, what) in xs {
+                let mut comp = vec![0x02u8];
+                comp.extend_from_slice(&x);
+                // on the curve? (the harness's own decoder call is only a filter; the verdict is about every typed decoder)
+                if el_from_bytes::<C>(&comp).is_none() {
+                    continue;
+                }
+                used += 1;
+                for prim in prims.iter().filter(|p| matches!(p.class, Class::Element)) {
+                    if let Some(v) = sw.must_accept(prim, &comp, &format!("valid point with {what}")) {
+                        let decodes = sw.decodes;
+                        rep.evaluations += decodes;
+                        return Exec::Violation(v, rep);
+                    }
+                }
+                if let Some(prim) = prims.iter().find(|p| p.name == "Signature") {
+                    let valid = prim.valid[0].clone();
+                    let rl = valid.len() - sc_len::<C>();
+                    let mut b: Vec<u8> = if rl == 32 { x.to_vec() } else { comp.clone() };
+                    b.extend_from_slice(&valid[rl..]);
+                    if let Some(v) = sw.must_accept(prim, &b, &format!("signature whose R is a valid point with {what}")) {
+                        let decodes = sw.decodes;
+                        rep.evaluations += decodes;
+                        return Exec::Violation(v, rep);
+                    }
+                }
+            }
+            if used > 0 {
+                sw.rep.probe("boundary_x_coordinates_accepted");
             }
         }
         // the signature's response part as well
